@@ -257,12 +257,15 @@ def hostile(i: int, fmt: int) -> bool:
     return isinstance(out.exc, (ValueError, SyntaxError)) or fail(why='unexpected error class', out=out)
 
 
+MALFORMED = object()
 TARGET_TEXTS = [
-    ('json', '{"a": [1, 2]}', {'a': [1, 2]}), ('json', '[1, "x", null]', [1, 'x', None]), ('json', '{"a": ', None), ('json', "{'a': 1}", None),
-    ('json', '', {}), ('python', "{'a': (1, 2)}", {'a': (1, 2)}), ('python', '[1, None]', [1, None]), ('python', '{"a": f()}', None),
-    ('python', '__import__("os")', None), ('python', '{1: ', None), ('yaml', 'a: [1, 2]\nb: x', {'a': [1, 2], 'b': 'x'}), ('yml', 'a: 1', {'a': 1}),
-    ('yaml', 'a: [1, 2', None), ('yaml', '!!python/object/apply:os.system ["true"]', None), ('toml', 'a = 1\n[t]\nb = "x"', {'a': 1, 't': {'b': 'x'}}),
-    ('toml', 'a = ', None), ('toml', 'a = 1\na = 2', None), ('xml', '<a/>', None), ('json', '1e999', float('inf')),
+    ('json', '{"a": [1, 2]}', {'a': [1, 2]}), ('json', '[1, "x", null]', [1, 'x', None]), ('json', '{"a": ', MALFORMED), ('json', "{'a': 1}", MALFORMED),
+    ('json', '', {}), ('python', "{'a': (1, 2)}", {'a': (1, 2)}), ('python', '[1, None]', [1, None]), ('python', '{"a": f()}', MALFORMED),
+    ('python', '__import__("os")', MALFORMED), ('python', '{1: ', MALFORMED), ('yaml', 'a: [1, 2]\nb: x', {'a': [1, 2], 'b': 'x'}), ('yml', 'a: 1', {'a': 1}),
+    ('yaml', 'a: [1, 2', MALFORMED), ('yaml', '!!python/object/apply:os.system ["true"]', MALFORMED), ('toml', 'a = 1\n[t]\nb = "x"', {'a': 1, 't': {'b': 'x'}}),
+    ('toml', 'a = ', MALFORMED), ('toml', 'a = 1\na = 2', MALFORMED), ('xml', '<a/>', MALFORMED), ('json', '1e999', float('inf')),
+    ('json', '[]', []), ('json', '0', 0), ('json', 'false', False), ('json', '""', ''), ('json', 'null', None), ('python', '()', ()),
+    ('yaml', '[]', []), ('python', '0', 0),
 ]
 
 
@@ -275,10 +278,10 @@ def target_formats(i: int) -> bool:
     fmt, text, want = TARGET_TEXTS[i]
     out = run(lambda: cli.mw_handle_target(text, fmt))
     reach('formats')
-    if want is None:
+    if want is MALFORMED:
         reach('malformed')
         return (out.kind == 'err' and isinstance(out.exc, UsageError)) or fail(why='malformed target must be a usage error', out=out, text=text)
-    return (out.kind == 'ok' and out.value == want) or fail(out=out, want=want)
+    return (out.kind == 'ok' and out.value == want and type(out.value) is type(want)) or fail(out=out, want=want)
 
 
 E2E = [
@@ -302,6 +305,8 @@ E2E = [
     (['glom', '--spec-format', 'nope', 'a', '{}'], None, 'usage', None),
     (['glom', '--spec-format', 'python-full', 'T["a"]', '{"a": 8}'], None, 0, '8\n'),
     (['glom', '--indent', '4', 'T["a"]', '{"a": 8}'], None, 1, 'PathAccessError'),
+    (['glom', '--indent', '0', '{"t": ()}', '[]'], None, 0, '{"t": []}\n'),
+    (['glom', '--indent', '0', '', '0'], None, 0, '0\n'),
 ]
 
 
@@ -385,7 +390,7 @@ def obligations(tier):
     for lo in range(0, ne, step):
         obs.append(Ob(end_to_end, pre='%d <= i < %d' % (lo, min(lo + step, ne)), name='end_to_end_%d' % lo, timeout=300, path_timeout=100))
     if q:
-        obs.append(Ob(end_to_end, pre='(i == 11 or i == 13 or i == 15 or i == 18)', name='end_to_end_files', timeout=300, path_timeout=100))
+        obs.append(Ob(end_to_end, pre='(i == 11 or i == 13 or i == 15 or i == 18 or i == 20 or i == 21)', name='end_to_end_files', timeout=300, path_timeout=100))
     obs.append(Ob(cli_eq, fixed={'tk': 0}, pre='0 <= sk < %d and 0 <= a <= 1 and 0 <= b <= 1 and (indent == 0 or indent == 2)' % NS, twin='cli_err', name='cli_eq_t0'))
     obs.append(Ob(cli_eq, fixed={'tk': 0}, pre='0 <= sk < %d and 0 <= a <= 1 and 0 <= b <= 1 and (indent == 0 or indent == 2)' % NS, twin='cli_scalar', name='cli_eq_t0'))
     obs.append(Ob(source_select, fixed={'spec_file': 0, 'target_file': 0}, twin='from-stdin', name='source_select_00'))
